@@ -216,7 +216,14 @@ def monitors (ds : DS) (env : Env) (cfg : Cfg) (o : ObsSt) (poolBefore : List St
           (if o.pool.isEmpty then [] else ["C11 pool not empty after a block was produced"])
         | _, _ => []
       else []
-    fails ++ derived ++ adm ++ prod
+    -- C10: addresses a block lists as removed (and not as added) stop being registered once the block is confirmed;
+    -- the block just confirmed is the one below the tip
+    let removal :=
+      match bs.dropLast.getLast? with
+      | some cb => ((cb.removedL.filter (fun a => !cb.addedL.contains a)).filter (fun a => o.reg.contains a)).map
+          (fun a => s!"C10 removed-address-still-registered-after-confirmation impl={a} h={bs.length - 2}")
+      | none => []
+    fails ++ derived ++ adm ++ prod ++ removal
 
 -- ---------------------------------------------------------------- operations
 
